@@ -38,53 +38,57 @@ From Coq Require Import List.
 Import ListNotations.
 Open Scope bs_scope.
 
+(* canonical names (the translator numbers them in order of creation, so that renaming is harmless):
+   c0 = fileChan (cap n0)   c1 = resultChan (cap n0)   c2 = statusChan (cap n1)   c3 = progressChan (cap n0)
+   c4 = statusDone (unbuffered)   n0 = len(files)   n1 = numWorkers = 5   w0 = wg
+   g0 = worker   g1 = status updater   g2 = closer *)
 Definition pool_program_modelled : list (bytes * list pstmt) :=
   [("Initialize",
     [SErrReturn "getFiles";
-     SLen "totalFiles" "files";
-     SConst "numWorkers" "5";
-     SMake "fileChan" "totalFiles";
-     SMake "resultChan" "totalFiles";
-     SMake "statusChan" "numWorkers";
-     SMake "progressChan" "totalFiles";
-     SWaitGroup "wg";
-     SWgAdd "numWorkers";
-     SLoopN "numWorkers" [SGo "worker"];
-     SForEach "files" [SSend "fileChan"];
-     SClose "fileChan";
-     SMake "statusDone" "0";
-     SGo "go#1";
-     SGo "go#2";
-     SRange "resultChan" [SHook "verifOnMerge"];
-     SRecv "statusDone";
+     SLen "n0" "files";
+     SConst "n1" "5";
+     SMake "c0" "n0";
+     SMake "c1" "n0";
+     SMake "c2" "n1";
+     SMake "c3" "n0";
+     SWaitGroup "w0";
+     SWgAdd "n1";
+     SLoopN "n1" [SGo "g0"];
+     SForEach "files" [SSend "c0"];
+     SClose "c0";
+     SMake "c4" "0";
+     SGo "g1";
+     SGo "g2";
+     SRange "c1" [SHook "verifOnMerge"];
+     SRecv "c4";
      SReturn]);
-   ("worker",
-    [SRange "fileChan"
+   ("g0",
+    [SRange "c0"
        [SHook "verifBeforeFile";
-        SSend "statusChan";
+        SSend "c2";
         SErrContinue "readFile";
         SErrContinue "parser.ParseCtx";
-        SSend "statusChan";
+        SSend "c2";
         SCall "buildGraphFromAST";
-        SSend "statusChan";
-        SSend "resultChan";
-        SSend "progressChan"];
+        SSend "c2";
+        SSend "c1";
+        SSend "c3"];
      SWgDone]);
-   ("go#1",
-    [SDeferClose "statusDone";
+   ("g1",
+    [SDeferClose "c4";
      SForever
-       [SSelect [("statusChan", [SIfClosedReturn]);
-                 ("progressChan", [SIfClosedReturn])]]]);
-   ("go#2",
+       [SSelect [("c2", [SIfClosedReturn]);
+                 ("c3", [SIfClosedReturn])]]]);
+   ("g2",
     [SWgWait;
-     SClose "resultChan";
-     SClose "statusChan";
-     SClose "progressChan"])].
+     SClose "c1";
+     SClose "c2";
+     SClose "c3"])].
 
 Lemma pool_program_matches : pool_program = pool_program_modelled.
 Proof. reflexivity. Qed.
 
 (* the number of workers the campaigns and the window characterisation of merge orders use *)
 Lemma pool_workers_5 :
-  In (SConst "numWorkers" "5") (snd (hd ("", []) pool_program)).
+  In (SConst "n1" "5") (snd (hd ("", []) pool_program)).
 Proof. rewrite pool_program_matches. cbn. tauto. Qed.
